@@ -248,6 +248,14 @@ def check(ix, rep):
                 normalisers[id(nf)] = nf
             n += 1
     rep.floor('pastifier/horizon handlers of timed operators', n, 14)
+    # a conversion that remembers its answers forgets nothing the answers depend on
+    from sa.rules import memo
+    ncache = 0
+    for (mod_, cls_) in (('rtamt.semantics.discrete_time_interpreter', 'DiscreteTimeInterpreter'), ('rtamt.semantics.dense_time_interpreter', 'DenseTimeInterpreter')):
+        k_ = ix.find_class(mod_, cls_)
+        f_ = k_.methods.get('time_unit_transformer')
+        if f_ is not None:
+            ncache += memo.check_method(ix, rep, k_, f_, 'converter')
     nrb = unitflow.check_raw_bounds(ix, rep)
     rep.floor('functions reading the bounds of a timed node', nrb, 3)
     nl = check_exact_lifts(ix, rep)
